@@ -632,7 +632,76 @@ def run_attr_modules(ctx, i, rng):
     ctx.check(close(got[1], want[1]), 'attr_modules:input_cotangent_or_tangent', lambda: dict(case=desc))
 
 
+def run_plain_lifted_plain(ctx, i, rng):
+  """One module instance (sub-modules defined in setup, mutable state two levels below it) used plainly, then through a lifted
+  autodiff transform, then plainly again within ONE apply: the state updates of the lifted call are published once, where the
+  later plain calls see them - outputs and the final collection equal those of the all-plain program."""
+  import jax
+  import jax.numpy as jnp
+  import flax.linen as nn
+  prog = ['pLp', 'pLLp', 'Lp', 'pL', 'pLpLp', 'LL'][i % 6]
+  lift = ['vjp', 'value_and_grad', 'jvp'][(i // 6) % 3]
+  desc = dict(program=prog, lift=lift)
+  with ctx.case('plain_lifted_plain', i, desc, nontrivial='p' in prog and 'L' in prog):
+    class Norm(nn.Module):
+      @nn.compact
+      def __call__(self, x):
+        n = self.variable('stats', 'count', lambda: jnp.zeros(()))
+        if self.is_mutable_collection('stats'):
+          n.value = n.value + 1.0
+        return x * (1.0 + 0.5 * n.value)
+
+    class Block(nn.Module):
+      def setup(self):
+        self.dense = nn.Dense(3)
+        self.norm = Norm()
+
+      def __call__(self, x):
+        return self.norm(jnp.tanh(self.dense(x)))
+
+    class Wrap(nn.Module):
+      def setup(self):
+        self.inner = Block()
+
+      def __call__(self, x):
+        return self.inner(x)
+
+    class Net(nn.Module):
+      program: str
+
+      def setup(self):
+        # the state sits one or two levels below the module that is lifted
+        self.block = Wrap() if (i // 18) % 2 == 0 else Block()
+
+      def __call__(self, x):
+        for ch in self.program:
+          if ch == 'p':
+            x = self.block(x)
+          elif lift == 'vjp':
+            x = nn.vjp(lambda m, z: m(z), self.block, x)[0]
+          elif lift == 'value_and_grad':
+            x = x + 0.0 * nn.value_and_grad(lambda m, z: jnp.sum(m(z)), self.block, x)[0]
+            x = self.block(x) if False else x     # (value_and_grad returns a scalar: the lifted call only updates the state)
+          else:
+            x = nn.jvp(lambda m, z: m(z), self.block, (x,), (jnp.ones_like(x),), {})[0]
+        return x
+
+    x = jnp.asarray(np.random.default_rng(i).uniform(-1, 1, (2, 3)).astype(np.float32))
+    v = Net('p').init(jax.random.key(i), x)
+    v = {**v, 'stats': jax.tree_util.tree_map(jnp.zeros_like, v['stats'])}
+    y, upd = Net(prog).apply(v, x, mutable=['stats'])
+    ctx.op('plain / nn.%s / plain on one module instance' % lift)
+    n_calls = len(prog)
+    cnt = float(jax.tree_util.tree_leaves(upd['stats'])[0])
+    ctx.check(cnt == float(n_calls), 'published_once:state_after_mixed_plain_and_lifted_calls', lambda: dict(case=desc, count=cnt, calls=n_calls))
+    if lift != 'value_and_grad':
+      y_ref, _ = Net('p' * n_calls).apply(v, x, mutable=['stats'])
+      ctx.check(close(y, y_ref), 'published_once:later_plain_call_sees_stale_state', lambda: dict(case=desc))
+
+
 def run(ctx):
+  for i in ctx.indices(36 if ctx.tier == 'quick' else 108, 'plain_lifted_plain'):
+    run_plain_lifted_plain(ctx, i, ctx.rng('plain_lifted_plain', i))
   for i in ctx.indices(24 if ctx.tier == 'quick' else 72, 'attr_modules'):
     run_attr_modules(ctx, i, ctx.rng('attr_modules', i))
   for i in ctx.indices(24 if ctx.tier == 'quick' else 48, 'jvp_forms'):
